@@ -138,9 +138,13 @@ func (t *validatingTarget) Write(p []byte) (n int, err error) {
 		t.writtenPayload += uint64(n)
 	}
 
-	err = t.checkQuotaLimits(t.cachedHeader, t.writtenPayload)
+	if quotaErr := t.checkQuotaLimits(t.cachedHeader, t.writtenPayload); quotaErr != nil {
+		return n, quotaErr
+	}
 
-	return
+	// the error of the next target must reach the caller: otherwise a failed
+	// write of a split-chain member goes unnoticed and the stream continues
+	return n, err
 }
 
 func (t *validatingTarget) Close() (oid.ID, error) {
